@@ -20,11 +20,12 @@ import (
 
 func TestMain(m *testing.M) { drv.Main(m) }
 
-const rule = "the CL state machine of C01/C07 with reward structure forced: positions over the same range opened in the same block by different owners with different amounts, one-sided positions far from the price, swaps crossing ticks both ways between position events, claims / partial withdrawals / transfers at generated times, incentive records with generated rates, start times and all four authorised uptimes, both accumulator-scaling regimes; oracle after every step: positions sharing range and join time and never modified have claimable spread rewards and incentives proportional to liquidity (|r2 L1 - r1 L2| <= 2(L1+L2); identical liquidity => identical amounts); a position the price never came near claims exactly nothing; on MsgCollectIncentives the owner's balance grows by exactly the collected (never the forfeited) amount; incentive coins are conserved (deposited == account balance + paid out) and balance - claimable - un-emitted - known-stranded is bounded truncation dust; spread-reward conservation is covered by C01's exit oracle which runs here too; non-trivial = a proportional pair or a never-in-range position was checked after a tick-crossing swap; distinct by history hash"
+const rule = "the CL state machine of C01/C07 with reward structure forced: positions over the same range opened in the same block by different owners with different amounts, one-sided positions far from the price, swaps crossing ticks both ways between position events, claims / partial withdrawals / transfers at generated times, incentive records with generated rates, start times and all four authorised uptimes, both accumulator-scaling regimes; oracle around every swap: an exact big.Rat walk of the curve from the pre-swap state gives the spread charge and the active liquidity of every constant-liquidity bucket, and the claimable spread reward of every position must grow by its liquidity share of the charges of exactly the buckets it covers (nothing for buckets it does not cover), within the documented roundings (charge rounded up per bucket, growth per unit of liquidity truncated at the accumulator precision, 36-decimal sqrt-price granularity); oracle after every step: positions sharing range and join time and never modified have claimable spread rewards and incentives proportional to liquidity (|r2 L1 - r1 L2| <= 2(L1+L2); identical liquidity => identical amounts); a position the price never came near claims exactly nothing; on MsgCollectIncentives the owner's balance grows by exactly the collected (never the forfeited) amount; incentive coins are conserved (deposited == account balance + paid out) and balance - claimable - un-emitted - known-stranded is bounded truncation dust; spread-reward conservation is covered by C01's exit oracle which runs here too; non-trivial = a proportional pair or a never-in-range position was checked after a tick-crossing swap; distinct by history hash"
 
 func TestPropRewards(t *testing.T) {
 	drv.Check(t, drv.Cfg{Name: "cl-rewards", Rule: rule, Quick: 150, Thorough: 2200, Steps: 30, TSteps: 60}, func(rt *rapid.T, c *drv.Case) {
 		s := clsim.New(rt, t)
+		s.SpreadLedger = true
 		s.StrictExit = true
 		paidOut := map[string]*big.Int{}
 		stranded := map[string]*big.Int{}
